@@ -75,6 +75,7 @@ VARIABLE g
 Init == g \in [c : 1..Len(Constructs), p : 1..Len(Positions), win : {"instant", "range", "one"}]
 Next == UNCHANGED g
 TextOf(x) == InPos(Constructs[x.c], Positions[x.p])
-ScnOf(x) == Scn("fb", "C08", TickMs, Data, <<>>, 4, IF x.win = "range" THEN 8 ELSE 4, IF x.win = "instant" THEN 0 ELSE 1, 2, 0) @@ [q |-> TextOf(x)]
+ScnOf(x) == Scn("fb", "C08", TickMs, Data, <<>>, 4, IF x.win = "range" THEN 8 ELSE 4, IF x.win = "instant" THEN 0 ELSE 1, 2, 0)
+            @@ [q |-> TextOf(x), cfg |-> [part |-> IF Constructs[x.c].type \in {"vector", "scalar"} THEN Constructs[x.c].text ELSE ""]]
 EmitFb == IF TextOf(g) # "" /\ (g.c * 7 + g.p * 3 + (IF g.win = "instant" THEN 0 ELSE IF g.win = "range" THEN 1 ELSE 2)) % Mod = Seed % Mod THEN Emit(ScnOf(g)) ELSE TRUE
 =============================================================================
